@@ -570,6 +570,247 @@ theorem deliver_Q (c : Circ) (fuel : Nat) : DQ (deliver c fuel) := by
                   rw [hr]
                   exact classify_aborts _ _ (by simp) (by simp)
 
+/-! ### fuel: the nesting depth of `event()` calls is bounded by the circuit -/
+
+def NoOOF (p : St × Res) : Prop := p.2 ≠ .exc .outOfFuel
+
+def DG (K : St → Prop) (dlv : Dlv) : Prop := ∀ s d et data, K s → NoOOF (dlv s d et data)
+
+/-- `K` is kept by everything complete calls of `event()` do to a state -/
+def KClosed (K : St → Prop) : Prop := ∀ s s', K s → Frm s s' → K s'
+
+theorem NoOOF.leaf (s : St) (r : Res) (h : r ≠ .exc .outOfFuel) : NoOOF (s, r) := h
+
+section fuel
+variable {K : St → Prop} {dlv : Dlv}
+
+theorem andThen_G {p : St × Res} {k : St → St × Res} (h1 : NoOOF p) (h2 : NoOOF (k p.1)) :
+    NoOOF (andThen p k) := by
+  unfold andThen
+  split
+  · next x hx => intro h; simp only [] at h; exact h1 (hx.trans h)
+  · exact h2
+
+theorem sendEdges_G (hk : KClosed K) (hf : DFrm dlv) (hg : DG K dlv) (src : Nat) (s : St)
+    (es : List Edge) (data : Data) (h : K s) : NoOOF (sendEdges dlv src s es data) := by
+  induction es generalizing s with
+  | nil => exact NoOOF.leaf _ _ (by simp)
+  | cons e es ih =>
+    unfold sendEdges
+    split
+    · exact ih s h
+    · exact andThen_G (hg _ _ _ _ h) (ih _ (hk _ _ h (hf ..)))
+
+theorem setOutput_G (hk : KClosed K) (hf : DFrm dlv) (hg : DG K dlv) (b : Blk) (d : Nat) (s : St)
+    (v : Val) (h : K s) : NoOOF (setOutput dlv b d s v) := by
+  unfold setOutput
+  split
+  · exact NoOOF.leaf _ _ (by simp)
+  · simp only []
+    split
+    · exact sendEdges_G hk hf hg _ _ _ _ h
+    · have h0 : K { s with out := upd s.out d v } := hk _ _ h ⟨rfl, rfl, id, fun _ h => h⟩
+      exact andThen_G (sendEdges_G hk hf hg _ _ _ _ h0)
+        (sendEdges_G hk hf hg _ _ _ _ (hk _ _ h0 (sendEdges_frm hf ..)))
+
+theorem runAct_G (hk : KClosed K) (hf : DFrm dlv) (hg : DG K dlv) (b : Blk) (d : Nat) (s : St)
+    (a : Act) (h : K s) : NoOOF (runAct dlv b d s a) := by
+  cases a with
+  | setOut v => exact setOutput_G hk hf hg _ _ _ _ h
+  | send i v =>
+    simp only [runAct]
+    split
+    · exact NoOOF.leaf _ _ (by simp)
+    · exact sendEdges_G hk hf hg _ _ _ _ h
+  | raise => exact NoOOF.leaf _ _ (by simp)
+  | rawEvent x et => exact hg _ _ _ _ h
+
+theorem runActs_G (hk : KClosed K) (hf : DFrm dlv) (hg : DG K dlv) (b : Blk) (d : Nat) (s : St)
+    (as : List Act) (h : K s) : NoOOF (runActs dlv b d s as) := by
+  induction as generalizing s with
+  | nil => exact NoOOF.leaf _ _ (by simp)
+  | cons a as ih =>
+    unfold runActs
+    exact andThen_G (runAct_G hk hf hg _ _ _ _ h) (ih _ (hk _ _ h (runAct_frm hf ..)))
+
+theorem handlerBody_G (hk : KClosed K) (hf : DFrm dlv) (hg : DG K dlv) (b : Blk) (d : Nat) (s : St)
+    (name : String) (data : Data) (h : K s) : NoOOF (handlerBody dlv b d s name data) := by
+  unfold handlerBody
+  split
+  · split
+    · exact runActs_G hk hf hg _ _ _ _ h
+    · split
+      · exact runActs_G hk hf hg _ _ _ _ h
+      · split
+        · exact runActs_G hk hf hg _ _ _ _ h
+        · exact NoOOF.leaf _ _ (by simp)
+  · split
+    · exact NoOOF.leaf _ _ (by simp)
+    · split
+      · exact NoOOF.leaf _ _ (by simp)
+      · exact andThen_G (setOutput_G hk hf hg _ _ _ _ h) (NoOOF.leaf _ _ (by simp))
+  · split
+    · next x hx =>
+      have : x ≠ .outOfFuel := by
+        unfold counterResult at hx
+        repeat' split at hx
+        all_goals simp at hx
+        all_goals subst hx
+        all_goals simp
+      exact NoOOF.leaf _ _ (by simpa using this)
+    · exact andThen_G (setOutput_G hk hf hg _ _ _ _ h) (NoOOF.leaf _ _ (by simp))
+
+theorem initRegular_G (hk : KClosed K) (hf : DFrm dlv) (hg : DG K dlv) (b : Blk) (d : Nat) (s : St)
+    (h : K s) : NoOOF (initRegular dlv b d s) := by
+  unfold initRegular
+  split
+  · exact runActs_G hk hf hg _ _ _ _ h
+  · exact NoOOF.leaf _ _ (by simp)
+
+theorem initFromValue_G (hk : KClosed K) (hf : DFrm dlv) (hg : DG K dlv) (b : Blk) (d : Nat) (s : St)
+    (h : K s) : NoOOF (initFromValue dlv b d s) := by
+  unfold initFromValue
+  split
+  · split
+    · exact NoOOF.leaf _ _ (by simp)
+    · exact hg _ _ _ _ h
+    · exact setOutput_G hk hf hg _ _ _ _ h
+  · exact NoOOF.leaf _ _ (by simp)
+
+theorem initBlock_G (hk : KClosed K) (hf : DFrm dlv) (hg : DG K dlv) (b : Blk) (d : Nat) (s : St)
+    (h : K { s with init := upd s.init d .running }) : NoOOF (initBlock dlv b d s) := by
+  unfold initBlock
+  refine andThen_G (initRegular_G hk hf hg b d _ h) ?_
+  exact andThen_G (initFromValue_G hk hf hg b d _ (hk _ _ h (initRegular_frm hf ..)))
+    (NoOOF.leaf _ _ (by simp))
+
+end fuel
+
+/-- blocks that can still enter `event()` plus blocks whose early initialisation can still open a
+    window: every nested call of `event()` lowers this number -/
+def phi (n : Nat) (s : St) : Nat :=
+  (List.range n).countP (fun d => !s.active d) + (List.range n).countP (fun d => s.init d == .pending)
+
+theorem countP_flip (l : List Nat) (hl : l.Nodup) (d : Nat) (hd : d ∈ l) (p p' : Nat → Bool)
+    (hp : p d = true) (hp' : p' d = false) (hne : ∀ x, x ≠ d → p' x = p x) :
+    l.countP p' + 1 = l.countP p := by
+  induction l with
+  | nil => cases hd
+  | cons a l ih =>
+    rw [List.nodup_cons] at hl
+    by_cases had : a = d
+    · subst had
+      have : l.countP p' = l.countP p := by
+        apply List.countP_congr
+        intro x hx
+        have : x ≠ a := fun h => hl.1 (h ▸ hx)
+        rw [hne x this]
+      simp [hp, hp', this]
+    · have hd' : d ∈ l := by
+        rcases List.mem_cons.1 hd with h | h
+        · exact absurd h.symm had
+        · exact h
+      have := ih hl.2 hd'
+      simp only [List.countP_cons, hne a had]
+      omega
+
+theorem phi_frm (n : Nat) {s s' : St} (f : Frm s s') : phi n s' ≤ phi n s := by
+  unfold phi
+  rw [f.active]
+  apply Nat.add_le_add_left
+  apply List.countP_mono_left
+  intro x _ hx
+  have := f.init x (by simpa using hx)
+  simp [this]
+
+theorem phi_le (n : Nat) (s : St) : phi n s ≤ 2 * n := by
+  unfold phi
+  have h1 := List.countP_le_length (p := fun d => !s.active d) (l := List.range n)
+  have h2 := List.countP_le_length (p := fun d => s.init d == .pending) (l := List.range n)
+  simp only [List.length_range] at h1 h2
+  omega
+
+theorem kclosed_phi (n k : Nat) : KClosed (fun s => phi n s < k) :=
+  fun _ _ h f => Nat.lt_of_le_of_lt (phi_frm n f) h
+
+theorem phi_stack_trace (n : Nat) (s : St) (stk : List Frame) (t : List TItem) :
+    phi n { s with stack := stk, trace := t } = phi n s := rfl
+
+/-- the nesting depth of `event()` calls below a state `s` is at most `phi s` -/
+theorem deliver_G (c : Circ) (fuel : Nat) : DG (fun s => phi c.n s < fuel) (deliver c fuel) := by
+  induction fuel with
+  | zero => intro s d et data h; exact absurd h (Nat.not_lt_zero _)
+  | succ fuel ih =>
+    intro s d et data hK
+    have hf := deliver_frm c fuel
+    have hk := kclosed_phi c.n fuel
+    unfold deliver
+    split
+    · exact NoOOF.leaf _ _ (by simp)
+    · split
+      · next x hx =>
+        refine NoOOF.leaf _ _ ?_
+        cases et <;> simp [EType.check] at hx <;> subst hx <;> simp
+      · split
+        · exact NoOOF.leaf _ _ (by simp)
+        · next b hb _ _ hact =>
+          have hd : s.active d = false := by simpa using hact
+          have hdn : d < c.n := by
+            unfold Circ.n
+            rcases Nat.lt_or_ge d c.blocks.length with h | h
+            · exact h
+            · rw [List.getElem?_eq_none h] at hb; cases hb
+          have hmem : d ∈ List.range c.n := List.mem_range.2 hdn
+          -- one block less can enter `event()`
+          have h1 : phi c.n { s with active := upd s.active d true } + 1 = phi c.n s := by
+            unfold phi
+            have := countP_flip (List.range c.n) List.nodup_range d hmem
+              (fun x => !s.active x) (fun x => !upd s.active d true x) (by simp [hd]) (by simp [upd])
+              (fun x hx => by simp [upd, hx])
+            simp only [] at this ⊢
+            omega
+          have hK1 : phi c.n { s with active := upd s.active d true } < fuel := by omega
+          show NoOOF (_, _)
+          unfold NoOOF
+          simp only []
+          -- the body
+          unfold eventBody
+          simp only []
+          split
+          · simp
+          · have hfe := earlyInit_frm hf b d s.stack { s with active := upd s.active d true } rfl
+            have hge : NoOOF (earlyInit (deliver c fuel) b d s.stack { s with active := upd s.active d true }) := by
+              unfold earlyInit
+              split
+              · next hp =>
+                simp only [] at hp
+                apply initBlock_G hk hf ih
+                show phi c.n _ < fuel
+                have h2 : phi c.n { s with active := upd (upd s.active d true) d false, init := upd s.init d .running, stack := ⟨d, .init⟩ :: s.stack } + 1 = phi c.n s := by
+                  unfold phi
+                  simp only [upd_restore _ _ hd]
+                  have := countP_flip (List.range c.n) List.nodup_range d hmem
+                    (fun x => s.init x == .pending) (fun x => upd s.init d .running x == .pending)
+                    (by simp [hp]) (by simp [upd]) (fun x hx => by simp [upd, hx])
+                  omega
+                show phi c.n { s with active := upd (upd s.active d true) d false, init := upd s.init d .running, stack := ⟨d, .init⟩ :: s.stack } < fuel
+                omega
+              · exact NoOOF.leaf _ _ (by simp)
+            refine andThen_G hge ?_
+            have hK3 := hk _ _ hK1 hfe
+            generalize (earlyInit (deliver c fuel) b d s.stack { s with active := upd s.active d true }).1 = s3 at hK3
+            unfold callHandler
+            split
+            · exact NoOOF.leaf _ _ (by simp)
+            · split
+              · exact NoOOF.leaf _ _ (by simp)
+              · exact handlerBody_G hk hf ih b d _ _ data hK3
+
+/-- `Circ.fuel` is enough in every state -/
+theorem deliver_fuel (c : Circ) (s : St) (d : Nat) (et : EType) (data : Data) :
+    (deliver c c.fuel s d et data).2 ≠ .exc .outOfFuel :=
+  deliver_G c c.fuel s d et data (by unfold Circ.fuel; have := phi_le c.n s; omega)
+
 /-! ### the top level: initialisation loop -/
 
 theorem initLoop_frm (c : Circ) (s : St) (ds : List Nat) : Frm s (initLoop c s ds).1 := by
